@@ -4,6 +4,7 @@ an Integer and a List of Integers), built and changed by a history with plain va
 populated Element argument, an in-place `set` two levels down, and removals.
 -/
 import Proofs.C08Tree
+import Proofs.C08Detached
 namespace Flatland.C08.Proofs
 open Flatland.Tree Flatland.PyList Flatland.C08 Flatland.C08.Spec
 
@@ -93,6 +94,13 @@ def exPop : HOp := ⟨1, .seq (.pop (some 1))⟩
 example : exDict.id ∉ ids (hstep exS3 exPop).root ∧ ∀ x, Reach (hstep exS3 exPop).root x → x.id ≠ exDict.id :=
   (removed_unreachable exS3 exPop exS3_ok.ids ⟨by decide, by decide, by decide⟩ exS3.root
     (self_mem_nodes _) rfl).2 exDict exDict_child (by decide)
+
+/-- `detached_unreachable`: the slot `pop(1)` returns, the Dict it holds and everything below are gone -/
+example : ∀ a ∈ [1009, 1000, 1019, 1020, 1022, 1021], a ∉ ids (hstep exS3 exPop).root := by
+  have h := detached_unreachable exS3 exPop exS3_ok.ids ⟨by decide, by decide, by decide⟩ exS3.root (self_mem_nodes _) rfl
+    ((nodeStep exS3.root exPop.op exS3.next).detached[0]'(by decide)) (List.getElem_mem _)
+  intro a ha
+  exact (h a (by revert a; decide) (by revert a; decide)).1
 
 /-- the same theorem two levels down: `del y[0]` on the List inside the Dict; and `set` on that
     List rebuilding its members -/
